@@ -337,9 +337,11 @@ def main():
                baseline_off_cmd='cd /repo && /venv/bin/python -m pytest -ra -q -p no:cacheprovider --timeout=900 --continue-on-collection-errors',
                source_commits=[], add_only=True),
     engines=[dict(name='tlc', path='/opt/veriftools/tla/tla2tools.jar', serves_properties=sorted(CHECKS),
-                  kind_free_text='TLC 1.8.0 explicit-state model checker: exhaustive MC_* models, -simulate behaviour generation, and batched trace validation (TR_* specs) of behaviours recorded from /repo')],
+                  kind_free_text='TLC 1.8.0 explicit-state model checker: exhaustive MC_* models, -simulate behaviour generation, and batched trace validation (TR_* specs) of behaviours recorded from /repo'),
+             dict(name='apalache', path='/opt/veriftools/apalache/bin/apalache-mc', serves_properties=['C17'],
+                  kind_free_text='Apalache 0.58 symbolic model checker: inductive invariant and action invariants of the per-object life-cycle machine (spec/ObjLifeApa.tla) over unbounded integers; secondary to TLC, run by the C17 check')],
     checks=checks,
-    notes='One TLA+ code base under /verif/spec; bin/check <ID> quick|thorough runs TLC on the model, drives /repo, and validates the recorded traces with TLC. Genuine defects repaired by fix: commits are listed in known_findings.json.',
+    notes='One TLA+ code base under /verif/spec; bin/check <ID> quick|thorough runs TLC on the model, drives /repo, and validates the recorded traces with TLC. Genuine defects repaired by fix: commits are listed in known_findings.json (status fixed); open findings (D6 for C09, D29 for C12) are matched by clause AND signature and printed as KNOWN-FINDING. Clause ids: Cnn.* decide the property, Xnn.* are inconclusive cases (counted), Gnn.* are growth clauses about behaviour beyond the listed properties (reported in the evidence, never a violation). 196 confirmed seeded changes (five rounds, seeded/) are all detected by the quick checks.',
     not_applicable=na)
   with open(os.path.join(HERE, 'MANIFEST.json'), 'w') as f:
     json.dump(man, f, indent=1)
